@@ -522,7 +522,7 @@ class Interp:
                 m = self.class_members(c)
                 if name in m:
                     v = m[name]
-                    if isinstance(v, tuple) and v[0] == "expr":
+                    if isinstance(v, tuple) and len(v) == 2 and v[0] == "expr":
                         v = self.eval_class_const(c, name, v[1])
                         m[name] = v
                     return v, c
@@ -654,6 +654,24 @@ class Interp:
                 if isinstance(vs, Exc):
                     yield st2, vs
                     continue
+                from . import keyed
+
+                if any(not is_z3(k) and keyed.is_special(self, st2, k) for k in ks):
+                    # keys with user-defined == / symbolic tuples: insert one at a time (an equal earlier key is overwritten)
+                    ref = st2.alloc(DictE({}))
+
+                    def put(st3, i):
+                        if i == len(ks):
+                            yield st3, ref
+                            return
+                        for st4, r in self.models.setitem(self, st3, ref, ks[i], vs[i]):
+                            if isinstance(r, Exc):
+                                yield st4, r
+                            else:
+                                yield from put(st4, i + 1)
+
+                    yield from put(st2, 0)
+                    continue
                 d = {}
                 for k, v in zip(ks, vs):
                     d[self.hashable(k)] = v
@@ -679,6 +697,25 @@ class Interp:
                 isinstance(n, ast.FormattedValue) and n.format_spec is not None for n in node.values
             ):
                 yield st1, "".join(str(self.py_for_str(v)) for v in vs)
+            elif all(isinstance(v, (str, int, Fraction, bool, type(None))) for v in vs) and all(
+                not isinstance(n, ast.FormattedValue)
+                or n.format_spec is None
+                or (n.conversion == -1 and all(isinstance(c, ast.Constant) and isinstance(c.value, str) for c in n.format_spec.values))
+                for n in node.values
+            ):
+                # concrete values with literal format specs (f"{i:03d}"): format() of the concrete value
+                out = []
+                try:
+                    for n, v in zip(node.values, vs):
+                        if isinstance(n, ast.FormattedValue) and n.format_spec is not None:
+                            spec = "".join(c.value for c in n.format_spec.values)
+                            out.append(format(self.py_for_str(v), spec))
+                        else:
+                            out.append(str(self.py_for_str(v)))
+                except (ValueError, TypeError) as e:
+                    yield st1, Exc(ExcVal(BuiltinClass(type(e).__name__, type(e)), (str(e),)))
+                    continue
+                yield st1, "".join(out)
             else:
                 yield st1, Opaque("fstring")
 
